@@ -80,6 +80,9 @@ class Model:
             elif o.kind == "buf":
                 s[("head", o.name)] = Int("head_%s_%d" % (o.name, t))
                 s[("tail", o.name)] = Int("tail_%s_%d" % (o.name, t))
+                # ghost: origin position of the last chunk appended, and "a chunk arrived before an earlier-origin one"
+                s[("lastbs", o.name)] = Int("lastbs_%s_%d" % (o.name, t))
+                s[("ooo", o.name)] = z3.Bool("ooo_%s_%d" % (o.name, t))
         s["clock"] = Int("clock_%d" % t)
         return s
 
@@ -116,6 +119,8 @@ class Model:
             elif o.kind == "buf":
                 init = o.fields.get("init", 0)
                 cs.append(s[("head", o.name)] == 0)
+                cs.append(s[("lastbs", o.name)] == -1)
+                cs.append(z3.Not(s[("ooo", o.name)]))
                 if not isinstance(init, str):
                     cs.append(s[("tail", o.name)] == init)
         cs.append(s["clock"] == 0)
@@ -144,6 +149,9 @@ class Model:
             return V(s[("tail", e[1])] - s[("head", e[1])])
         if k == "bytes":
             return V(bs=self.val(e[1], s, ti, extra).i, bl=self.val(e[2], s, ti, extra).i, isb=z3.BoolVal(True))
+        if k == "bytesof":
+            v = self.val(e[1], s, ti, extra)
+            return V(bs=v.bs, bl=v.bl, isb=z3.BoolVal(True))
         if k == "lenof":
             return V(self.val(e[1], s, ti, extra).bl)
         if k == "buftake":
@@ -154,7 +162,7 @@ class Model:
         if k in ("sub", "add"):
             a, b = self.val(e[1], s, ti, extra), self.val(e[2], s, ti, extra)
             return V(a.i - b.i if k == "sub" else a.i + b.i)
-        if k in ("not", "and", "or", "cmp", "isnone"):
+        if k in ("not", "and", "or", "cmp", "isnone", "isbytes"):
             c = self.cond(e, s, ti, extra)
             return V(z3.If(c, IntVal(1), IntVal(0)))
         raise Unsupported("expression kind %s" % k)
@@ -169,6 +177,8 @@ class Model:
             return z3.Or(*[self.cond(x, s, ti, extra) for x in e[1]])
         if k == "isnone":
             return self.val(e[1], s, ti, extra).none
+        if k == "isbytes":
+            return self.val(e[1], s, ti, extra).isb
         if k == "cmp":
             a, b = self.val(e[2], s, ti, extra), self.val(e[3], s, ti, extra)
             op = e[1]
@@ -277,6 +287,10 @@ class Model:
                 elif op == "bufappend":
                     n = self.val(ins.a[1], a, ti).i
                     put(("tail", ins.a[0]), act, a[("tail", ins.a[0])] + n)
+                    if ins.a[1][0] == "lenof":
+                        src = self.val(ins.a[1][1], a, ti)
+                        put(("ooo", ins.a[0]), act, z3.Or(a[("ooo", ins.a[0])], z3.And(src.bl > 0, src.bs < a[("lastbs", ins.a[0])])))
+                        put(("lastbs", ins.a[0]), act, z3.If(src.bl > 0, src.bs, a[("lastbs", ins.a[0])]))
                 elif op == "bufdel":
                     h, tl = a[("head", ins.a[0])], a[("tail", ins.a[0])]
                     if ins.a[1] is None:
